@@ -43,8 +43,8 @@ InstancesOf(t) ==
   ELSE IF t = "thorough" THEN
                      Grid({"K2N1", "K3N1", "K2N3"}, {1, 2, 3, 4}, {0, 1, 2, 3}, {"flat", "skew", "dom", "lastzero", "refzero"}, {1, 2, 3}, 2)
                      \cup Grid({"K3N2"}, {1, 2, 3, 4}, {0, 1, 2, 3}, {"flat", "skew", "dom", "lastzero", "refzero"}, {1, 3}, 2)
-                     \cup Grid({"K4N2"}, {1, 2, 3, 4}, {0, 1, 3}, {"flat", "skew", "lastzero"}, {1, 2}, 2)
-                     \cup Grid({"K4N3"}, {1, 2, 3, 4}, {0, 1, 2, 3}, {"flat", "skew", "dom", "refzero"}, {1, 2}, 2)
+                     \cup Grid({"K4N2"}, {1, 2, 3, 4}, {0, 1, 2, 3}, {"flat", "skew", "dom", "lastzero", "refzero"}, {1, 2, 3}, 2)
+                     \cup Grid({"K4N3"}, {1, 2, 3, 4}, {0, 1, 2, 3}, {"flat", "skew", "dom", "lastzero", "refzero"}, {1, 2, 3}, 2)
   ELSE  Grid({"K3N2"}, {2, 3}, {0, 1}, {"flat", "skew"}, {1, 3}, 2)
 (* evaluated once when TLC starts (zero-arity constant definitions are pre-evaluated), only for the chosen tier *)
 Instances == InstancesOf(Tier)
